@@ -783,7 +783,8 @@ def special_pair_model(draw, kind, dlpoly=False):
     """pair models aimed at value classes that random parameters almost never hit:
     root_on_grid -- the energy is EXACTLY zero at a grid node while its slope is not (dyadic grid spacing, linear
                     potential or Lennard-Jones with sigma on a node);
-    decay_tail   -- fast exponential tails (either sign) that run through 1e-99 .. 1e-308 and underflow."""
+    decay_tail   -- fast exponential tails (either sign) that run through 1e-99 .. 1e-308 and underflow;
+    growth       -- values (either sign) that grow through 1e99 .. 1e200: three-digit exponents at the large end."""
     a, b = draw(st.sampled_from([("A", "B"), ("O", "U"), ("Mg", "O"), ("Xx", "Xx")]))
     if kind == "root_on_grid":
         q = draw(st.sampled_from([2, 3, 4]))
@@ -799,6 +800,16 @@ def special_pair_model(draw, kind, dlpoly=False):
             {"k": "form", "name": "lj", "p": [draw(st.sampled_from([0.0104, 0.5, 1.0])), rk]},
             {"k": "mod", "m": "sum", "args": [_single({"k": "form", "name": "constant", "p": [-c * rk]}),
                                                 _single({"k": "form", "name": "polynomial", "p": [0, c]})]}]))
+        pd = _single(body)
+    elif kind == "growth":
+        nr = draw(st.integers(6, 20)) * 4 if dlpoly else draw(st.integers(20, 80))
+        cutoff = draw(st.sampled_from([20.0, 25.0, 32.0, 40.0]))
+        A = draw(st.sampled_from([-100.0, -3.0, -1, 1, 25.0, 1000.0]))
+        body = draw(st.sampled_from([
+            {"k": "form", "name": "exponential", "p": [A, draw(st.integers(70, 110))]},
+            {"k": "form", "name": "bornmayer", "p": [A, -draw(st.sampled_from([0.08, 0.1, 0.125]))]},
+            {"k": "mod", "m": "pow", "args": [_single({"k": "form", "name": "bornmayer", "p": [1.0, 0.2]}),
+                                               _single({"k": "form", "name": "constant", "p": [-draw(st.sampled_from([2.0, 3.0]))]})]}]))
         pd = _single(body)
     else:
         nr = draw(st.integers(6, 20)) * 4 if dlpoly else draw(st.integers(20, 80))
